@@ -951,3 +951,89 @@ M.contract(P_EXE + ':_PartialExecutor._setup_post_sds_environment', params=dict(
                [e[0] for e in trace if e[0] in ('sds-constructed', 'chdir')] == ['sds-constructed', 'chdir']
                and ghost.get('cwd') == str(self._PartialExecutor__sandbox_directory_structure.act_dir),
            }, may_raise=(OSError,), raises_only=())
+
+
+# --- from the parsed instruction to the modifier: the variable name is the resolved name string
+
+class NameDdvI(Interface):
+    methods = {'value_of_any_dependency': Method(returns=Str, pure=True)}
+
+
+class NameSdvI(Interface):
+    attrs = {'references': Any_}
+    methods = {'resolve': Method(returns=Iface(NameDdvI), event='name-resolved')}
+
+
+class ValueDdvI(Interface):
+    attrs = {'validator': Any_}
+    methods = {'value_of_any_dependency': Method(returns=Iface(StringSourceAdvI), event='value-adv')}
+
+
+class ValueSdvI(Interface):
+    attrs = {'references': Any_}
+    methods = {'resolve': Method(returns=Iface(ValueDdvI), event='value-resolved')}
+
+
+class TcdsI(Interface):
+    by_id = True
+
+
+M.contract(P_ENV + ':ModifierDdvForSet.resolve',
+           params=dict(self=Inst(env_impl.ModifierDdvForSet, _name=Iface(NameDdvI), _value=Iface(ValueDdvI)),
+                       tcds=Iface(TcdsI)), inline=True,
+           ensures={'set <resolved name> to <resolved value source>': lambda self, tcds, result, trace:
+           isinstance(result, env_impl.ModifierAdvForSet) and result._name == self._name.value_of_any_dependency(tcds)
+           and result._value is [e[2] for e in trace if e[0] == 'value-adv:returned'][0]},
+           raises_only=())
+M.contract(P_ENV + ':ModifierDdvForUnset.resolve',
+           params=dict(self=Inst(env_impl.ModifierDdvForUnset, _name=Iface(NameDdvI)), tcds=Iface(TcdsI)),
+           inline=True,
+           ensures={'unset <resolved name>': lambda self, tcds, result:
+           isinstance(result, env_impl.ModifierAdvForUnset) and result._name == self._name.value_of_any_dependency(tcds)},
+           raises_only=())
+M.contract(P_ENV + ':ModifierSdvOfSet.resolve',
+           params=dict(self=Inst(env_impl.ModifierSdvOfSet, _var_name=Iface(NameSdvI), _var_value=Iface(ValueSdvI),
+                                 _references=Any_), symbols=Any_), inline=True,
+           ensures={'name and value resolved against the given symbols': lambda self, symbols, result, trace:
+           isinstance(result, env_impl.ModifierDdvForSet)
+           and result._name is [e[2] for e in trace if e[0] == 'name-resolved:returned'][0]
+           and result._value is [e[2] for e in trace if e[0] == 'value-resolved:returned'][0]
+           and all(e[2][0] is symbols for e in trace if e[0] in ('name-resolved', 'value-resolved'))},
+           raises_only=())
+M.contract(P_ENV + ':ModifierSdvOfUnset.resolve',
+           params=dict(self=Inst(env_impl.ModifierSdvOfUnset, _var_name=Iface(NameSdvI)), symbols=Any_), inline=True,
+           ensures={'name resolved against the given symbols': lambda self, symbols, result, trace:
+           isinstance(result, env_impl.ModifierDdvForUnset)
+           and result._name is [e[2] for e in trace if e[0] == 'name-resolved:returned'][0]
+           and all(e[2][0] is symbols for e in trace if e[0] == 'name-resolved')},
+           raises_only=())
+
+
+# --- the current directory of the process that runs Exactly is restored after the execution
+
+from exactly_lib.util.file_utils.misc_utils import preserved_cwd
+
+
+def _getcwd(interp, args, kwargs):
+    g = interp.st.ghost
+    if 'cwd' not in g:
+        g['cwd'] = Str.make(interp, 'cwd')
+    return g['cwd']
+
+
+M.model(os.getcwd, _getcwd)
+
+
+def cwd_is_preserved(directory):
+    """Harness: an execution that changes directory, inside preserved_cwd()."""
+    before = os.getcwd()
+    with preserved_cwd():
+        os.chdir(directory)
+        inside = os.getcwd()
+    return before, inside, os.getcwd()
+
+
+M.contract('contracts.C11_settings:cwd_is_preserved', params=dict(directory=Str),
+           ensures={'cd takes effect inside; the directory is restored afterwards (unless chdir itself fails)':
+                    lambda directory, result: result[1] == directory and result[2] == result[0]},
+           may_raise=(OSError,), raises_only=())
